@@ -63,6 +63,14 @@ def atom(rng):
             return "#\\x" + rng.choice(["%x", "%X", "%04x"]) % c, "c:%d" % c
         nm = rng.choice(sorted(NAMED_CHARS))
         return "#\\" + nm, "c:%d" % NAMED_CHARS[nm]
+    if k < 0.62:
+        # peculiar identifiers: a sign followed by a letter-like character, `->`, or two dots, then ANY subsequent characters,
+        # digits included
+        head = rng.choice(["+", "-", "+", "-", "->", "..", "--", "+-"])
+        if head in ("+", "-"):
+            head += rng.choice("abcxyzXYZ!$%&*/:<=>?^_~@+-")
+        name = head + "".join(rng.choice(ID_SUBSEQUENT) for _ in range(rng.randrange(0, 5)))
+        return name, "y:" + name
     if k < 0.7:
         name = rng.choice(ID_INITIAL) + "".join(rng.choice(ID_SUBSEQUENT) for _ in range(rng.randrange(0, 6)))
         return name, "y:" + name
